@@ -10,17 +10,29 @@ sys.path.insert(0, os.path.join(symx.ROOT, "srcx"))
 
 def kani_dates(tier, seed):
     t0 = time.time()
-    res = [kani.run_harness(h, timeout_s=600 if tier == "quick" else 1800) for h in ("k1_from_date_all_dates", "k2_period_bounds", "k3_chrono_fields")]
+    res = [kani.run_harness(h, timeout_s=600 if tier == "quick" else 1800) for h in ("k1_from_date_all_dates", "k2_period_bounds", "k3_chrono_fields", "k4_mcp_explain_year_all_dates")]
     out = {"violations": [], "inconclusive": [], "evidence": {"engine": "KANI 0.68 / CBMC 6.11 (cadical)", "harnesses": res,
-           "functions_encoded": ["cgt_core::models::TaxPeriod::{from_date,new,start_date,end_date,start_year,end_year}", "chrono::NaiveDate::{from_ymd_opt,year,month,day}"],
+           "functions_encoded": ["cgt_core::models::TaxPeriod::{from_date,new,start_date,end_date,start_year,end_year}", "cgt_mcp::server::CgtServer::explain_matching (the `let year = if ..;` statement, source-extracted)", "chrono::NaiveDate::{from_ymd_opt,year,month,day}"],
            "bounds": "all (y, m, d) with 0 <= y <= 9999 (the DSL's 4-digit year) and all u16 start years; no loops to unwind, unwinding assertions on"}}
-    failed = [r for r in res if r["status"] == "failed"]
+    k4_failed = [r for r in res if r["status"] == "failed" and r["harness"].startswith("k4")]
+    if k4_failed:
+        # replay: the compiled statement scanned over every date for the first one that leaves the statute
+        rr = symx.run_replay("C07mcp", [{"id": "mcpscan", "base": "2024-01-10", "lines": [], "opts": {"date": "scan"}, "values": {}}], "c07mcpscan")[0]
+        bad = [o for o in rr["obs"] if o["v"] == "R"]
+        if bad:
+            out["violations"].append({"property": "C07", "engine": "KANI", "harnesses_failed": k4_failed, "sub_claim": "MCP explain_matching year derivation", "replayed": bad[0]["why"],
+                                      "record": {"id": "mcpscan", "base": "2024-01-10", "lines": [], "opts": {"date": "scan"}, "values": {}}, "harness_prop": "C07mcp", "obligation": "C07.mcp-year-derivation",
+                                      "replay": "./check C07 --replay <this file> re-runs the scan of the compiled statement"})
+        else:
+            out["inconclusive"].append(f"KANI K4 reports failed checks ({k4_failed[0]['detail'][:200]}) but the compiled statement agrees with the statute on every date ({rr['outcome']})")
+    failed = [r for r in res if r["status"] == "failed" and not r["harness"].startswith("k4")]
     if failed:
         # replay: native exhaustive scan of every date through the real function
         rr = symx.run_replay("C07dates", [{"id": "scan", "base": "2024-01-10", "lines": [], "opts": {}, "values": {}}], "c07dates")[0]
         ob = rr["obs"][0]
         if ob["v"] == "R":
             out["violations"].append({"property": "C07", "engine": "KANI", "harnesses_failed": failed, "native_scan": ob["why"],
+                                      "record": {"id": "scan", "base": "2024-01-10", "lines": [], "opts": {}, "values": {}}, "harness_prop": "C07dates", "obligation": ob["n"],
                                       "replay": "./check C07 --replay <this file> re-runs the native scan of all dates"})
         else:
             out["inconclusive"].append(f"KANI reports failed checks ({failed[0]['detail'][:200]}) but the native scan of all dates finds no disagreement")
@@ -45,7 +57,8 @@ def srcx_dates(tier, seed):
                 rr = symx.run_replay("C07mcp", [{"id": "mcp", "base": date, "lines": [], "opts": {"date": date}, "values": {}}], "c07mcp")[0]
                 bad = [o for o in rr["obs"] if o["v"] == "R"]
                 if bad:
-                    out["violations"].append({"property": "C07", "engine": "SRCX", "sub_claim": r["name"], "date": date, "source": r["detail"], "replayed": bad[0]["why"]})
+                    out["violations"].append({"property": "C07", "engine": "SRCX", "sub_claim": r["name"], "date": date, "source": r["detail"], "replayed": bad[0]["why"],
+                                              "record": {"id": "mcp", "base": date, "lines": [], "opts": {"date": date}, "values": {}}, "harness_prop": "C07mcp", "obligation": bad[0]["n"]})
                 else:
                     out["inconclusive"].append(f"SRCX counterexample {date} for {r['name']} did not reproduce on the compiled statement ({rr['outcome']})")
             else:
